@@ -5,13 +5,18 @@ D1 field-coverage tables of every id, D2 generated processors have no identity i
 so the sweep definition must reach the pipeline ids through the preprocessor metadata,
 D3 positional discriminator and complete domain signatures.
 
-Locals are identified by role; helper functions of the same module are followed one level.
+Every rule is decided on the normal form of the anchored function (private helpers inlined, module
+constants substituted, single-assignment locals propagated, accumulate loops as comprehensions) and
+speaks about *roles*: the mapping that reaches `json.dumps` on the way to `uuid5`, the value stored
+under a key of that mapping, the expression a value is derived from (backward flow through locals,
+tuple unpacking, container stores), never about the spelling of a local or the position of a line.
 """
 from __future__ import annotations
 
 import ast
-from typing import Dict, List, Optional, Set, Tuple
+from typing import Dict, Iterable, List, Optional, Set, Tuple
 
+from ..cfg import CFG, edges_guaranteeing, reaching_defs
 from ..engine import (
     AnalysisError,
     FuncNode,
@@ -26,6 +31,7 @@ from ..engine import (
     dotted_name,
     kwarg,
     norm,
+    parent,
     qualname_of,
     returned_values,
     slice_text,
@@ -46,126 +52,647 @@ SWEEP_META_KEYS = {"element_ref", "param_expressions", "variables", "mode", "bro
 UI_ONLY_ALLOWED = {"preprocessor_view"}
 CANON_DROP_ALLOWED = {"expr"}
 
+# calls that return (a copy / reordering of) their first argument with every element kept
+WHOLE_FUNCS = {"dict", "list", "tuple", "sorted", "deepcopy", "OrderedDict", "cast", "str", "repr"}
+WHOLE_METHODS = {"copy", "items", "encode"}
+GROW_METHODS = {"append", "add", "extend", "update", "insert", "setdefault"}
+HASH_FUNCS = {"sha256", "sha1", "md5", "sha512", "blake2b", "_sha256_json"}
+REORDERING = {"sorted", "set", "reversed", "frozenset"}
+
 
 def _u(e: Optional[ast.AST]) -> str:
     return ast.unparse(e) if e is not None else ""
 
 
-def dict_literal_keys(d: ast.AST) -> Set[str]:
-    return {k.value for k in d.keys if isinstance(k, ast.Constant)} if isinstance(d, ast.Dict) else set()
+def NF(repo: Repo, rel: str, qualname: str, keep: Iterable[str] = ()) -> ast.FunctionDef:
+    """The normal form every rule of this module reads."""
+    return nfunc(repo, rel, qualname, keep=tuple(keep), copyprop="all", loops=True)
+
+
+# ---------------------------------------------------------------------------------------------------------
+# value flow inside one (normalised) function
+# ---------------------------------------------------------------------------------------------------------
+
+def _fn_stmts(fn: ast.AST) -> List[ast.AST]:
+    cache = fn.__dict__.get("_c05_nodes")
+    if cache is None:
+        cache = list(walk_no_nested(fn))
+        fn.__dict__["_c05_nodes"] = cache
+    return cache
+
+
+def name_values(fn: ast.AST, name: str) -> List[ast.AST]:
+    """Every expression that becomes the value of the local *name* or is put into the object it names:
+    assignments (also element-wise through tuple unpacking), augmented assignments, loop / with targets,
+    `name[k] = v`, `name.append(v)` / `.update(..)` / `.setdefault(k, v)` ..."""
+    out: List[ast.AST] = []
+
+    def bind(target: ast.AST, value: ast.AST) -> None:
+        if isinstance(target, ast.Name):
+            if target.id == name:
+                out.append(value)
+        elif isinstance(target, (ast.Tuple, ast.List)):
+            if isinstance(value, (ast.Tuple, ast.List)) and len(value.elts) == len(target.elts) and not any(isinstance(e, ast.Starred) for e in list(value.elts) + list(target.elts)):
+                for t, v in zip(target.elts, value.elts):
+                    bind(t, v)
+            elif any(isinstance(x, ast.Name) and x.id == name for x in ast.walk(target)):
+                out.append(value)
+        elif isinstance(target, ast.Starred):
+            bind(target.value, value)
+        elif isinstance(target, (ast.Subscript, ast.Attribute)):
+            root = target
+            while isinstance(root, (ast.Subscript, ast.Attribute)):
+                root = root.value
+            if isinstance(root, ast.Name) and root.id == name:
+                out.append(value)
+
+    for n in _fn_stmts(fn):
+        if isinstance(n, ast.Assign):
+            for t in n.targets:
+                bind(t, n.value)
+        elif isinstance(n, ast.AnnAssign) and n.value is not None:
+            bind(n.target, n.value)
+        elif isinstance(n, ast.AugAssign):
+            bind(n.target, n.value)
+        elif isinstance(n, ast.NamedExpr):
+            bind(n.target, n.value)
+        elif isinstance(n, (ast.For, ast.AsyncFor)):
+            bind(n.target, n.iter)
+        elif isinstance(n, (ast.With, ast.AsyncWith)):
+            for it in n.items:
+                if it.optional_vars is not None:
+                    bind(it.optional_vars, it.context_expr)
+        elif isinstance(n, ast.Call) and isinstance(n.func, ast.Attribute) and n.func.attr in GROW_METHODS:
+            root = n.func.value
+            while isinstance(root, (ast.Subscript, ast.Attribute)):
+                root = root.value
+            if isinstance(root, ast.Name) and root.id == name:
+                out.extend(n.args)
+                out.extend(k.value for k in n.keywords)
+    return out
+
+
+def flow(fn: ast.AST, expr: Optional[ast.AST]) -> List[ast.AST]:
+    """Backward slice of *expr* inside *fn*: every syntax node of *expr* and of the expressions its locals are
+    built from (transitively).  `X in flow(fn, e)` reads "X can contribute to the value of e"."""
+    if expr is None:
+        return []
+    out: List[ast.AST] = []
+    seen: Set[str] = set()
+    todo: List[ast.AST] = [expr]
+    while todo:
+        e = todo.pop()
+        for x in ast.walk(e):
+            out.append(x)
+            if isinstance(x, ast.Name) and isinstance(x.ctx, ast.Load) and x.id not in seen:
+                seen.add(x.id)
+                todo.extend(name_values(fn, x.id))
+    return out
+
+
+def reads_attr(nodes: Iterable[ast.AST], attr: str, of: Optional[str] = None) -> bool:
+    """`<of>.attr` or `getattr(<of>, 'attr', ..)` occurs in *nodes*."""
+    for x in nodes:
+        if isinstance(x, ast.Attribute) and x.attr == attr and (of is None or dotted_name(x.value) == of):
+            return True
+        if isinstance(x, ast.Call) and call_attr(x) == "getattr" and len(x.args) >= 2 and isinstance(x.args[1], ast.Constant) and x.args[1].value == attr and (of is None or dotted_name(x.args[0]) == of):
+            return True
+    return False
+
+
+def reads_key(nodes: Iterable[ast.AST], key: str) -> bool:
+    """`<m>['key']` or `<m>.get('key', ..)` occurs in *nodes*."""
+    for x in nodes:
+        if isinstance(x, ast.Subscript) and isinstance(x.slice, ast.Constant) and x.slice.value == key:
+            return True
+        if isinstance(x, ast.Call) and call_attr(x) == "get" and x.args and isinstance(x.args[0], ast.Constant) and x.args[0].value == key:
+            return True
+    return False
+
+
+def calls_to(nodes: Iterable[ast.AST], *names: str) -> List[ast.Call]:
+    return [x for x in nodes if isinstance(x, ast.Call) and call_attr(x) in names]
+
+
+def _local_callee(repo: Repo, rel: str, fn: ast.AST, call: ast.Call) -> Optional[Tuple[str, ast.AST]]:
+    """(qualname, def) of a function of the same module / nested in *fn* that *call* invokes by plain name."""
+    nm = call_attr(call)
+    if nm is None:
+        return None
+    for n in ast.walk(fn):
+        if isinstance(n, FuncNode) and n is not fn and n.name == nm:
+            return qualname_of(n), n
+    if isinstance(call.func, ast.Name) or (isinstance(call.func, ast.Attribute) and dotted_name(call.func.value) in ("self", "cls")):
+        t = repo.module(rel).defs.get(nm)
+        if isinstance(t, FuncNode):
+            return nm, t
+    return None
+
+
+def alternatives(fn: ast.AST, e: ast.AST, _seen: Optional[Set[str]] = None) -> List[ast.AST]:
+    """The expressions *e* can evaluate to, split at conditional expressions, `or` defaults and the distinct
+    assignments of a local."""
+    _seen = _seen if _seen is not None else set()
+    if isinstance(e, ast.IfExp):
+        return alternatives(fn, e.body, _seen) + alternatives(fn, e.orelse, _seen)
+    if isinstance(e, ast.Name) and e.id not in _seen:
+        vals = [v for v in assigned_value(fn, e.id)]
+        if vals:
+            _seen.add(e.id)
+            out: List[ast.AST] = []
+            for v in vals:
+                out.extend(alternatives(fn, v, _seen))
+            return out
+    return [e]
+
+
+def mapping_items(repo: Repo, rel: str, fn: ast.AST, expr: Optional[ast.AST], depth: int = 0, _seen: Optional[Set[Tuple[int, str]]] = None) -> Dict[str, List[ast.AST]]:
+    """Constant keys of the mapping *expr* evaluates to, with every expression written under each key (in source
+    order): dict literals with `**` spreads, `dict(m, k=v)`, `a | b`, copies, conditional expressions, locals with
+    their `m[k] = v` / `m.update(..)` / `m.setdefault(k, v)` stores, and the returned mappings of functions of the
+    same module."""
+    out: Dict[str, List[ast.AST]] = {}
+    _seen = _seen if _seen is not None else set()
+    if expr is None or depth > 4:
+        return out
+
+    def add(k, v: ast.AST) -> None:
+        out.setdefault(k, []).append(v)
+
+    def merge(e: Optional[ast.AST], d: int = depth) -> None:
+        for k, vs in mapping_items(repo, rel, fn, e, d, _seen).items():
+            out.setdefault(k, []).extend(vs)
+
+    if isinstance(expr, ast.Dict):
+        for k, v in zip(expr.keys, expr.values):
+            if k is None:
+                merge(v)
+            elif isinstance(k, ast.Constant):
+                add(k.value, v)
+    elif isinstance(expr, ast.IfExp):
+        merge(expr.body)
+        merge(expr.orelse)
+    elif isinstance(expr, ast.BoolOp):
+        for v in expr.values:
+            merge(v)
+    elif isinstance(expr, ast.BinOp) and isinstance(expr.op, ast.BitOr):
+        merge(expr.left)
+        merge(expr.right)
+    elif isinstance(expr, ast.NamedExpr):
+        merge(expr.value)
+    elif isinstance(expr, ast.Call):
+        nm = call_attr(expr)
+        if nm in ("dict", "OrderedDict"):
+            for a in expr.args:
+                merge(a)
+            for kw in expr.keywords:
+                if kw.arg is None:
+                    merge(kw.value)
+                else:
+                    add(kw.arg, kw.value)
+        elif nm == "copy" and isinstance(expr.func, ast.Attribute) and not expr.args:
+            merge(expr.func.value)
+        elif nm in ("deepcopy", "copy", "cast") and expr.args:
+            merge(expr.args[-1])
+        else:
+            hit = _local_callee(repo, rel, fn, expr)
+            if hit is not None:
+                callee = NF(repo, rel, hit[0])
+                for r in walk_no_nested(callee):
+                    if isinstance(r, ast.Return) and r.value is not None:
+                        for k, vs in mapping_items(repo, rel, callee, r.value, depth + 1, _seen).items():
+                            out.setdefault(k, []).extend(vs)
+    elif isinstance(expr, ast.Name):
+        key = (id(fn), expr.id)
+        if key in _seen:
+            return out
+        _seen.add(key)
+        for v in assigned_value(fn, expr.id):
+            merge(v)
+        for _st, k, v in key_stores(fn, expr.id):
+            add(k, v)
+    return out
+
+
+def key_stores(fn: ast.AST, name: str) -> List[Tuple[ast.AST, object, ast.AST]]:
+    """(statement, constant key, value) of every store into the mapping the local *name* holds."""
+    out: List[Tuple[ast.AST, object, ast.AST]] = []
+    for n in _fn_stmts(fn):
+        if isinstance(n, (ast.Assign, ast.AnnAssign)):
+            tgts = n.targets if isinstance(n, ast.Assign) else [n.target]
+            for t in tgts:
+                if isinstance(t, ast.Subscript) and isinstance(t.value, ast.Name) and t.value.id == name and isinstance(t.slice, ast.Constant) and n.value is not None:
+                    out.append((n, t.slice.value, n.value))
+        elif isinstance(n, ast.Call) and isinstance(n.func, ast.Attribute) and isinstance(n.func.value, ast.Name) and n.func.value.id == name:
+            if n.func.attr == "update":
+                for a in n.args:
+                    if isinstance(a, ast.Dict):
+                        for k, v in zip(a.keys, a.values):
+                            if isinstance(k, ast.Constant):
+                                out.append((stmt_of(n), k.value, v))
+                for kw in n.keywords:
+                    if kw.arg is not None:
+                        out.append((stmt_of(n), kw.arg, kw.value))
+            elif n.func.attr == "__setitem__" and len(n.args) == 2 and isinstance(n.args[0], ast.Constant):
+                out.append((stmt_of(n), n.args[0].value, n.args[1]))
+    out.sort(key=lambda t: (getattr(t[0], "lineno", 0), getattr(t[0], "col_offset", 0)))
+    return out
+
+
+def setdefault_stores(fn: ast.AST, name: str) -> List[Tuple[object, ast.AST]]:
+    return [(n.args[0].value, n.args[1]) for n in _fn_stmts(fn) if isinstance(n, ast.Call) and isinstance(n.func, ast.Attribute) and n.func.attr == "setdefault" and isinstance(n.func.value, ast.Name) and n.func.value.id == name and len(n.args) == 2 and isinstance(n.args[0], ast.Constant)]
+
+
+def first_items(items: Dict[str, List[ast.AST]]) -> Dict[str, ast.AST]:
+    return {k: vs[0] for k, vs in items.items() if vs}
+
+
+def returned_mapping(repo: Repo, rel: str, fn: ast.AST) -> Dict[str, List[ast.AST]]:
+    out: Dict[str, List[ast.AST]] = {}
+    for r in walk_no_nested(fn):
+        if isinstance(r, ast.Return) and r.value is not None:
+            for k, vs in mapping_items(repo, rel, fn, r.value).items():
+                out.setdefault(k, []).extend(vs)
+            if isinstance(r.value, ast.Name):
+                for k, v in setdefault_stores(fn, r.value.id):
+                    out.setdefault(k, []).append(v)
+    return out
 
 
 def mapping_keys_of(mod: Module, fn: ast.AST, expr: ast.AST, depth: int = 0) -> Dict[str, ast.AST]:
-    """Constant keys of the mapping *expr* evaluates to, following locals, subscript stores on the
-    local, and one level of same-module helper functions."""
+    """Kept for importers: constant keys (first value) of the mapping *expr* evaluates to."""
     out: Dict[str, ast.AST] = {}
     if isinstance(expr, (ast.Dict, ast.IfExp)):
         out.update(dict_items_built(fn, expr))
     if isinstance(expr, ast.Name):
         for v in assigned_value(fn, expr.id):
             out.update(mapping_keys_of(mod, fn, v, depth))
-        for n in ast.walk(fn):
-            if isinstance(n, ast.Assign):
-                for t in n.targets:
-                    if isinstance(t, ast.Subscript) and dotted_name(t.value) == expr.id and isinstance(t.slice, ast.Constant):
-                        out.setdefault(t.slice.value, n.value)
+        for _st, k, v in key_stores(fn, expr.id):
+            out.setdefault(k, v)
     if isinstance(expr, ast.Call) and depth < 2:
         callee = mod.defs.get(call_attr(expr) or "")
         if isinstance(callee, FuncNode):
-            for rv in returned_values(callee):
-                out.update(mapping_keys_of(mod, callee, rv, depth + 1))
             for r in walk_no_nested(callee):
-                if isinstance(r, ast.Return) and isinstance(r.value, ast.Name):
+                if isinstance(r, ast.Return) and r.value is not None:
                     out.update(mapping_keys_of(mod, callee, r.value, depth + 1))
+    return out
+
+
+def dict_literal_keys(d: ast.AST) -> Set[str]:
+    return {k.value for k in d.keys if isinstance(k, ast.Constant)} if isinstance(d, ast.Dict) else set()
+
+
+def derives_whole(repo: Repo, rel: str, fn: ast.AST, e: Optional[ast.AST], roots: Set[str], _seen: Optional[Set[str]] = None) -> bool:
+    """*e* is one of the *roots* (parameters / locals standing for the complete object) or is computed from one
+    by operations that keep every element: copies, sorting, re-listing, element-wise comprehensions without a
+    condition (key filters of a mapping comprehension are judged by the dropped-key rule), functions of the same
+    module applied to the whole object.  Subscripts, `.get`, slices, filters make a *part* of the object."""
+    _seen = _seen if _seen is not None else set()
+    if e is None:
+        return False
+    if isinstance(e, ast.Name):
+        if e.id in roots:
+            return True
+        if e.id in _seen:
+            return True  # a local re-bound to something computed from itself (`payload = dumps(f(payload))`): judged by its other bindings
+        _seen.add(e.id)
+        vals = assigned_value(fn, e.id)
+        if vals and all(_is_empty_container(v) for v in vals):
+            return _accumulated_whole(repo, rel, fn, e.id, roots, _seen)
+        return bool(vals) and all(derives_whole(repo, rel, fn, v, roots, _seen) for v in vals)
+    if isinstance(e, ast.IfExp):
+        return derives_whole(repo, rel, fn, e.body, roots, _seen) and derives_whole(repo, rel, fn, e.orelse, roots, _seen)
+    if isinstance(e, ast.JoinedStr):
+        return any(isinstance(v, ast.FormattedValue) and derives_whole(repo, rel, fn, v.value, roots, _seen) for v in e.values)
+    if isinstance(e, ast.BinOp) and isinstance(e.op, ast.Add):
+        return derives_whole(repo, rel, fn, e.left, roots, _seen) or derives_whole(repo, rel, fn, e.right, roots, _seen)
+    if isinstance(e, ast.Call):
+        nm = call_attr(e)
+        if isinstance(e.func, ast.Attribute) and nm in WHOLE_METHODS:
+            return derives_whole(repo, rel, fn, e.func.value, roots, _seen)
+        if nm in WHOLE_FUNCS or nm == "dumps":
+            return bool(e.args) and derives_whole(repo, rel, fn, e.args[-1] if nm == "cast" else e.args[0], roots, _seen)
+        if _local_callee(repo, rel, fn, e) is not None:
+            return bool(e.args) and derives_whole(repo, rel, fn, e.args[0], roots, _seen)
+        return False
+    if isinstance(e, (ast.ListComp, ast.SetComp, ast.GeneratorExp, ast.DictComp)):
+        if len(e.generators) != 1:
+            return False
+        g = e.generators[0]
+        tnames = {x.id for x in ast.walk(g.target) if isinstance(x, ast.Name)}
+        key_var = g.target.elts[0].id if isinstance(g.target, ast.Tuple) and g.target.elts and isinstance(g.target.elts[0], ast.Name) else None
+        for t in g.ifs:
+            if not (isinstance(e, ast.DictComp) and key_var is not None and _is_key_filter(t, {key_var})):
+                return False
+        body = [e.key, e.value] if isinstance(e, ast.DictComp) else [e.elt]
+        used = {x.id for b in body for x in ast.walk(b) if isinstance(x, ast.Name)}
+        if not tnames <= used:
+            return False
+        if any(isinstance(x, ast.Subscript) and isinstance(x.value, ast.Name) and x.value.id in tnames for b in body for x in ast.walk(b)):
+            return False
+        return derives_whole(repo, rel, fn, g.iter, roots, _seen)
+    return False
+
+
+def _is_empty_container(v: ast.AST) -> bool:
+    return (isinstance(v, (ast.List, ast.Set)) and not v.elts) or (isinstance(v, ast.Dict) and not v.keys) or (isinstance(v, ast.Call) and call_attr(v) in ("list", "dict", "set", "OrderedDict") and not v.args and not v.keywords)
+
+
+def _accumulated_whole(repo: Repo, rel: str, fn: ast.AST, name: str, roots: Set[str], _seen: Set[str]) -> bool:
+    """The local *name* starts empty and is filled, one element per element, in loops over a whole object: every
+    store `name[k] = v` / `name.append(v)` / `name.add(v)` sits in a loop whose iterable derives whole, uses every
+    loop variable, and is skipped only by key filters of a mapping traversal (judged by the dropped-key rule)."""
+    stores: List[Tuple[ast.AST, List[ast.AST]]] = []
+    for n in _fn_stmts(fn):
+        if isinstance(n, ast.Assign):
+            for t in n.targets:
+                if isinstance(t, ast.Subscript) and isinstance(t.value, ast.Name) and t.value.id == name:
+                    stores.append((n, [t.slice, n.value]))
+        elif isinstance(n, ast.Call) and isinstance(n.func, ast.Attribute) and n.func.attr in ("append", "add") and isinstance(n.func.value, ast.Name) and n.func.value.id == name and len(n.args) == 1:
+            stores.append((stmt_of(n), [n.args[0]]))
+        elif isinstance(n, ast.Call) and isinstance(n.func, ast.Attribute) and n.func.attr in GROW_METHODS and isinstance(n.func.value, ast.Name) and n.func.value.id == name:
+            return False
+    if not stores:
+        return False
+    for st, body in stores:
+        loop = next((a for a in ancestors(st) if isinstance(a, ast.For)), None)
+        if loop is None or loop.orelse or any(isinstance(x, (ast.Break, ast.Return)) for x in ast.walk(loop)):
+            return False
+        tnames = {x.id for x in ast.walk(loop.target) if isinstance(x, ast.Name)}
+        key_var = loop.target.elts[0].id if isinstance(loop.target, ast.Tuple) and loop.target.elts and isinstance(loop.target.elts[0], ast.Name) else None
+        is_map = len(body) == 2 and key_var is not None
+        used = {x.id for b in body for x in ast.walk(b) if isinstance(x, ast.Name)}
+        if not tnames <= used:
+            return False
+        conds = [a.test for a in ancestors(st) if isinstance(a, ast.If) and any(a is x for x in ast.walk(loop))]
+        conds += [x.test for x in ast.walk(loop) if isinstance(x, ast.If) and any(isinstance(y, ast.Continue) for y in ast.walk(x))]
+        if any(not (is_map and _is_key_filter(t, {key_var})) for t in conds):
+            return False
+        if not derives_whole(repo, rel, fn, loop.iter, roots, _seen):
+            return False
+    return True
+
+
+def _is_key_filter(test: ast.AST, key_vars: Set[str]) -> bool:
+    return any(isinstance(c, ast.Compare) and any(isinstance(x, ast.Name) and x.id in key_vars for side in [c.left] + list(c.comparators) for x in ast.walk(side)) for c in ast.walk(test))
+
+
+# ---------------------------------------------------------------------------------------------------------
+# D1
+# ---------------------------------------------------------------------------------------------------------
+
+def _hashed_node_objects(bcs: ast.AST) -> Tuple[List[ast.Call], List[ast.AST]]:
+    """(uuid5 calls, the objects serialised into their name argument)."""
+    uu = [c for c in walk_no_nested(bcs) if isinstance(c, ast.Call) and call_attr(c) == "uuid5"]
+    objs: List[ast.AST] = []
+    for c in uu:
+        name_arg = c.args[1] if len(c.args) > 1 else kwarg(c, "name")
+        for d in calls_to(flow(bcs, name_arg), "dumps"):
+            if d.args:
+                objs.append(d.args[0])
+    return uu, objs
+
+
+def _callee_effective_value(repo: Repo, rel: str, fn: ast.AST, call: ast.Call, key: str) -> Optional[ast.AST]:
+    """What the mapping returned by the same-module function *call* invokes holds under *key*; a parameter of the
+    callee is translated into the argument expression of the caller."""
+    hit = _local_callee(repo, rel, fn, call)
+    if hit is None:
+        return None
+    callee = NF(repo, rel, hit[0])
+    rets = [x for x in walk_no_nested(callee) if isinstance(x, ast.Return) and x.value is not None]
+    if len(rets) != 1:
+        return None
+    v = _effective_value(callee, CFG(callee, may_raise=lambda p: set()), rets[0].value, key, rets[0], 0, repo, rel)
+    if isinstance(v, ast.Name) and v.id in _params_of(callee) and not assigned_value(callee, v.id):
+        a = callee.args
+        pos = [x.arg for x in a.posonlyargs + a.args]
+        bound: Dict[str, ast.AST] = dict(zip(pos, call.args))
+        bound.update({k.arg: k.value for k in call.keywords if k.arg})
+        defaults = dict(zip(pos[len(pos) - len(a.defaults):], a.defaults))
+        return bound.get(v.id, defaults.get(v.id))
+    return v
+
+
+def _effective_value(bcs: ast.AST, g: CFG, obj: ast.AST, key: str, use_stmt: ast.AST, _depth: int = 0, repo: Optional[Repo] = None, rel: str = "") -> Optional[ast.AST]:
+    """The expression that sits under *key* of the mapping *obj* when *use_stmt* serialises it; None when it
+    cannot be told (several competing stores, a store that does not always happen before the use)."""
+    if _depth > 6:
+        return None
+    if isinstance(obj, ast.Dict):
+        val: Optional[ast.AST] = None
+        for k, v in zip(obj.keys, obj.values):
+            if k is None:
+                sub = _effective_value(bcs, g, v, key, use_stmt, _depth + 1, repo, rel)
+                val = sub if sub is not None else val
+            elif isinstance(k, ast.Constant) and k.value == key:
+                val = v
+        return val
+    if isinstance(obj, ast.Call):
+        nm = call_attr(obj)
+        if nm in ("dict", "OrderedDict"):
+            kw = kwarg(obj, key)
+            if kw is not None:
+                return kw
+            return _effective_value(bcs, g, obj.args[0], key, use_stmt, _depth + 1, repo, rel) if obj.args else None
+        if nm == "copy" and isinstance(obj.func, ast.Attribute) and not obj.args:
+            return _effective_value(bcs, g, obj.func.value, key, use_stmt, _depth + 1, repo, rel)
+        if nm == "deepcopy" and obj.args:
+            return _effective_value(bcs, g, obj.args[0], key, use_stmt, _depth + 1, repo, rel)
+        return _callee_effective_value(repo, rel, bcs, obj, key) if repo is not None else None
+    if isinstance(obj, ast.IfExp):
+        a = _effective_value(bcs, g, obj.body, key, use_stmt, _depth + 1, repo, rel)
+        b = _effective_value(bcs, g, obj.orelse, key, use_stmt, _depth + 1, repo, rel)
+        return a if a is not None and b is not None and ast.dump(a) == ast.dump(b) else None
+    if isinstance(obj, ast.Name):
+        stores = [(st, v) for st, k, v in key_stores(bcs, obj.id) if k == key]
+        use_nodes = g.nodes_for(use_stmt)
+        if stores:
+            if len(stores) != 1 or not use_nodes:
+                return None
+            st, v = stores[0]
+            st_nodes = g.nodes_for(st)
+            if not st_nodes:
+                return None
+            # the store lies on every path to the serialisation (dominance, not line order)
+            if all(g.dominated_by_node(u, st_nodes[0]) for u in use_nodes):
+                return v
+            return None
+        vals = assigned_value(bcs, obj.id)
+        if len(vals) == 1:
+            return _effective_value(bcs, g, vals[0], key, use_stmt, _depth + 1, repo, rel)
+    return None
+
+
+def _enclosing_stmt(fn: ast.AST, node: ast.AST) -> ast.AST:
+    cur = node
+    while not isinstance(cur, ast.stmt):
+        p = parent(cur)
+        if p is None or p is fn:
+            break
+        cur = p
+    return cur
+
+
+def _key_vars(fn: ast.AST) -> Set[str]:
+    """Locals that range over the keys of a mapping."""
+    out: Set[str] = set()
+    for g in ast.walk(fn):
+        if isinstance(g, (ast.comprehension, ast.For)):
+            it, tg = g.iter, g.target
+            if isinstance(it, ast.Call) and call_attr(it) in ("sorted", "list", "tuple") and it.args:
+                it = it.args[0]
+            if isinstance(it, ast.Call) and call_attr(it) == "items" and isinstance(tg, ast.Tuple) and tg.elts and isinstance(tg.elts[0], ast.Name):
+                out.add(tg.elts[0].id)
+            elif isinstance(tg, ast.Name) and (isinstance(it, ast.Name) or (isinstance(it, ast.Call) and call_attr(it) == "keys")):
+                out.add(tg.id)
+    return out
+
+
+def _module_strings(mod: Module, e: ast.AST, depth: int = 0) -> Set[str]:
+    """String constants of *e*, module-level names in it resolved to the strings of their definitions."""
+    out: Set[str] = set()
+    for x in ast.walk(e):
+        if isinstance(x, ast.Constant) and isinstance(x.value, str):
+            out.add(x.value)
+        elif isinstance(x, ast.Name) and depth < 3:
+            for st in mod.tree.body:
+                tgts = st.targets if isinstance(st, ast.Assign) else [st.target] if isinstance(st, ast.AnnAssign) and st.value is not None else []
+                if any(isinstance(t, ast.Name) and t.id == x.id for t in tgts):
+                    out |= _module_strings(mod, st.value, depth + 1)
+    return out
+
+
+def _dropped_keys(mod: Module, fn: ast.AST) -> Set[str]:
+    """Key spellings that a comparison with a key variable, a `pop` or a `del` in *fn* (nested defs included) names."""
+    dropped: Set[str] = set()
+    kv = _key_vars(fn)
+    for c in ast.walk(fn):
+        if isinstance(c, ast.Compare):
+            sides = [c.left] + list(c.comparators)
+            for i, s in enumerate(sides):
+                core = s.args[0] if isinstance(s, ast.Call) and call_attr(s) == "str" and s.args else s
+                if isinstance(core, ast.Name) and core.id in kv:
+                    for j, o in enumerate(sides):
+                        if j != i:
+                            dropped |= _module_strings(mod, o)
+        elif isinstance(c, ast.Call) and call_attr(c) == "pop" and c.args and isinstance(c.args[0], ast.Constant) and isinstance(c.args[0].value, str):
+            dropped.add(c.args[0].value)
+        elif isinstance(c, ast.Delete):
+            for t in c.targets:
+                if isinstance(t, ast.Subscript) and isinstance(t.slice, ast.Constant) and isinstance(t.slice.value, str):
+                    dropped.add(t.slice.value)
+    return dropped
+
+
+def _params_of(fn: ast.AST) -> List[str]:
+    return [a.arg for a in fn.args.posonlyargs + fn.args.args + fn.args.kwonlyargs]
+
+
+def _node_lists(cps: ast.AST, spec_param: str) -> List[Tuple[bool, ast.AST, Optional[str], ast.AST]]:
+    """Per-node structures built over the nodes of the spec: (complete and in order, element expression,
+    accumulator local or None, construct)."""
+    out: List[Tuple[bool, ast.AST, Optional[str], ast.AST]] = []
+
+    def nodes_iter(it: ast.AST) -> bool:
+        fl = flow(cps, it)
+        return any(isinstance(x, ast.Name) and x.id == spec_param for x in fl) and any(isinstance(x, ast.Constant) and x.value == "nodes" for x in fl)
+
+    def unordered(it: ast.AST) -> bool:
+        fl = flow(cps, it)
+        return bool(calls_to(fl, *REORDERING)) or any(isinstance(x, ast.Subscript) and isinstance(x.slice, ast.Slice) for x in fl)
+
+    for n in _fn_stmts(cps):
+        if isinstance(n, (ast.ListComp, ast.GeneratorExp)) and nodes_iter(n.generators[0].iter):
+            ok = len(n.generators) == 1 and not n.generators[0].ifs and not unordered(n.generators[0].iter)
+            out.append((ok, n.elt, None, n))
+        elif isinstance(n, ast.For) and nodes_iter(n.iter):
+            appends = [c for c in calls_in(n) if call_attr(c) == "append" and c.args and isinstance(c.func, ast.Attribute) and isinstance(c.func.value, ast.Name)]
+            for c in appends:
+                unconditional = parent(stmt_of(c)) is n and stmt_of(c) in n.body
+                ok = unconditional and not n.orelse and not any(isinstance(x, (ast.Continue, ast.Break, ast.Return)) for x in ast.walk(n)) and not unordered(n.iter)
+                out.append((ok, c.args[0], c.func.value.id, n))  # type: ignore[union-attr]
     return out
 
 
 def field_coverage(repo: Repo, R: Report) -> None:
     r = R.rule("C05-D1-field-coverage", "every identity-bearing field reaches the bytes that are hashed: node uuid <- whole canonical node (role, processor_ref, full-depth params, ports, declaration index); node semantic id <- whole sweep metadata minus exactly the UI-only keys; pipeline semantic id <- node uuid and node semantic id of every node in order; config id <- every (uuid, semantic id) pair; pipeline id <- whole canonical graph", 16)
-    gmod = repo.module(GRAPH)
-    cn = repo.func(GRAPH, "_canonical_node")
-    keys: Dict[str, ast.AST] = {}
-    for rv in returned_values(cn):
-        keys.update(mapping_keys_of(gmod, cn, rv))
-    for r_ in walk_no_nested(cn):
-        if isinstance(r_, ast.Return) and isinstance(r_.value, ast.Name):
-            keys.update(mapping_keys_of(gmod, cn, r_.value))
+    # --- node uuid: the mapping serialised into the name of uuid5 is the complete canonical node
+    repo.func(GRAPH, "_canonical_node")  # anchor
+    bcs = NF(repo, GRAPH, "build_canonical_spec")
+    uu, objs = _hashed_node_objects(bcs)
+    keys: Dict[str, List[ast.AST]] = {}
+    for i, o in enumerate(objs):
+        ki = mapping_items(repo, GRAPH, bcs, o)
+        keys = ki if i == 0 else {k: v for k, v in keys.items() if k in ki}
     for k in sorted(CANON_KEYS):
-        R.check(k in keys, r, GRAPH, "_canonical_node", f"canonical node carries {k!r}", f"field {k!r} no longer enters the canonical node: two configurations differing only there get the same node uuid", cn.lineno)
-    bcs = repo.func(GRAPH, "build_canonical_spec")
-    uu = [c for c in ast.walk(bcs) if isinstance(c, ast.Call) and call_name(c) == "uuid.uuid5"]
-    ok = False
-    canon_name = None
-    if len(uu) == 1 and len(uu[0].args) > 1:
-        txt = slice_text(bcs, uu[0].args[1], 3)
-        dumps = [c for c in ast.walk(bcs) if isinstance(c, ast.Call) and call_name(c) == "json.dumps"]
-        for d in dumps:
-            if _u(d) in txt and d.args and isinstance(d.args[0], ast.Name):
-                cdefs = assigned_value(bcs, d.args[0].id)
-                if cdefs and all(isinstance(v, ast.Call) and call_attr(v) == "_canonical_node" for v in cdefs):
-                    ok = True
-                    canon_name = d.args[0].id
+        R.check(k in keys, r, GRAPH, "_canonical_node", f"canonical node carries {k!r}", f"field {k!r} no longer enters the canonical node: two configurations differing only there get the same node uuid", bcs.lineno)
+    ok = bool(uu) and bool(objs) and CANON_KEYS <= set(keys)
     R.check(ok, r, GRAPH, "build_canonical_spec", "node_uuid = uuid5(ns, json.dumps(<whole canonical node>))", "the node uuid is not derived from the complete canonical node", bcs.lineno)
-    pstores = [n for n in ast.walk(bcs) if isinstance(n, ast.Assign) and any(isinstance(t, ast.Subscript) and dotted_name(t.value) == canon_name and isinstance(t.slice, ast.Constant) and t.slice.value == "params" for t in n.targets)]
-    ok = len(pstores) == 1 and isinstance(pstores[0].value, ast.Call) and call_attr(pstores[0].value) == "descriptor_to_json" and bool(uu) and pstores[0].lineno < uu[0].lineno
+    g = CFG(bcs, may_raise=lambda p: set())
+    ok = bool(objs)
+    for o in objs:
+        v = _effective_value(bcs, g, o, "params", _enclosing_stmt(bcs, o), 0, repo, GRAPH)
+        ok = ok and isinstance(v, ast.Call) and call_attr(v) == "descriptor_to_json" and len(v.args) == 1 and any(call_attr(c) == "resolve_parameters" for c in calls_to(flow(bcs, v.args[0]), "resolve_parameters"))
     R.check(ok, r, GRAPH, "build_canonical_spec", "canon['params'] = descriptor_to_json(params) before hashing", "the effective parameter map (full depth, as given) is not what gets hashed into the node uuid", bcs.lineno)
-    # pipeline id
-    cpi = repo.func(GRAPH, "compute_pipeline_id")
-    d = [c for c in ast.walk(cpi) if isinstance(c, ast.Call) and call_name(c) == "json.dumps"]
-    ok = len(d) == 1 and dotted_name(d[0].args[0]) == cpi.args.args[0].arg
+    # --- pipeline id
+    cpi = NF(repo, GRAPH, "compute_pipeline_id")
+    roots = set(_params_of(cpi)[:1])
+    rets = [x.value for x in walk_no_nested(cpi) if isinstance(x, ast.Return) and x.value is not None]
+    d = [c for rv in rets for c in calls_to(flow(cpi, rv), "dumps")]
+    ok = bool(d) and all(c.args and derives_whole(repo, GRAPH, cpi, c.args[0], roots) for c in d)
     R.check(ok, r, GRAPH, "compute_pipeline_id", "json.dumps(<whole canonical spec>)", "pipeline id hashes only a part of the canonical graph", cpi.lineno)
-    # node semantic id: only UI-only keys are dropped
+    # --- node semantic id: only UI-only keys (top level) and the raw expression text (by position) are dropped
     sem = repo.module(SEM)
-    ui = next((st for st in sem.tree.body if isinstance(st, ast.Assign) and dotted_name(st.targets[0]) == "_UI_ONLY_KEYS"), None)
-    ui_keys = {e.value for e in ui.value.elts if isinstance(e, ast.Constant)} if ui is not None and isinstance(ui.value, (ast.Set, ast.Tuple, ast.List)) else None
-    R.check(ui_keys is not None and ui_keys <= UI_ONLY_ALLOWED, r, SEM, "<module>", f"_UI_ONLY_KEYS = {sorted(ui_keys or [])}", f"keys {sorted((ui_keys or set()) - UI_ONLY_ALLOWED)} are stripped before hashing the node semantic id: differences there no longer change any id", ui.lineno if ui is not None else 0)
-    cns = repo.func(SEM, "compute_node_semantic_id")
-    dropped: Set[str] = set()
-    key_vars: Set[str] = set()
-    for g in ast.walk(cns):
-        if isinstance(g, (ast.comprehension, ast.For)):
-            it, tg = g.iter, g.target
-            if isinstance(it, ast.Call) and call_attr(it) == "items" and isinstance(tg, ast.Tuple) and tg.elts and isinstance(tg.elts[0], ast.Name):
-                key_vars.add(tg.elts[0].id)
-            elif isinstance(tg, ast.Name) and (isinstance(it, ast.Name) or (isinstance(it, ast.Call) and call_attr(it) == "keys")):
-                key_vars.add(tg.id)
-    for c in ast.walk(cns):
-        if isinstance(c, ast.Compare) and len(c.ops) == 1 and isinstance(c.ops[0], (ast.NotEq, ast.NotIn, ast.Eq, ast.In)) and isinstance(c.left, ast.Name) and c.left.id in key_vars:
-            for x in ast.walk(c.comparators[0]):
-                if isinstance(x, ast.Constant) and isinstance(x.value, str):
-                    dropped.add(x.value)
-    R.check(dropped <= CANON_DROP_ALLOWED, r, SEM, "compute_node_semantic_id", f"keys dropped by canonicalisation: {sorted(dropped)}", f"{sorted(dropped - CANON_DROP_ALLOWED)} are dropped before hashing", cns.lineno)
-    # a key may be dropped by *position* only: a filter on the key's spelling inside a function that recurses over
-    # the whole metadata removes user-chosen names (a sweep variable or parameter that happens to be called like the
-    # dropped field) at every depth, and with them their domains / expressions
-    helpers: List[Tuple[str, ast.AST]] = [(qualname_of(n), n) for n in ast.walk(cns) if isinstance(n, FuncNode) and n is not cns]
+    cns = NF(repo, SEM, "compute_node_semantic_id")
+    inner = [n for n in ast.walk(cns) if isinstance(n, FuncNode) and n is not cns]
+    helpers: List[Tuple[str, ast.AST]] = [(qualname_of(n), n) for n in inner]
     for c in ast.walk(cns):
         if isinstance(c, ast.Call) and isinstance(c.func, ast.Name):
             t = sem.defs.get(c.func.id)
-            if isinstance(t, FuncNode) and all(t is not h for _q, h in helpers):
+            if isinstance(t, FuncNode) and all(t.name != h.name for _q, h in helpers):
                 helpers.append((c.func.id, t))
-    n_filters = 0
+    bodies: List[Tuple[str, ast.AST]] = [("compute_node_semantic_id", cns)]
     for qn, h0 in helpers:
-        h = nfunc(repo, SEM, qn, copyprop="all", inline=False)
-        params = [a.arg for a in h.args.posonlyargs + h.args.args + h.args.kwonlyargs]
-        rec_calls = [c for c in ast.walk(h) if isinstance(c, ast.Call) and isinstance(c.func, ast.Name) and c.func.id == h.name]
-        # parameters whose value changes along the recursion (a depth / path argument)
-        varying: Set[str] = set()
+        bodies.append((qn, h0 if any(h0 is n for n in inner) else NF(repo, SEM, qn)))
+    dropped: Set[str] = set()
+    for _qn, h in bodies:
+        dropped |= _dropped_keys(sem, h)
+    ui_dropped = dropped - CANON_DROP_ALLOWED
+    R.check(ui_dropped <= UI_ONLY_ALLOWED, r, SEM, "<module>", f"_UI_ONLY_KEYS = {sorted(ui_dropped)}", f"keys {sorted(ui_dropped - UI_ONLY_ALLOWED)} are stripped before hashing the node semantic id: differences there no longer change any id", cns.lineno)
+    R.check(dropped <= CANON_DROP_ALLOWED | UI_ONLY_ALLOWED, r, SEM, "compute_node_semantic_id", f"keys dropped by canonicalisation: {sorted(dropped)}", f"{sorted(dropped - CANON_DROP_ALLOWED - UI_ONLY_ALLOWED)} are dropped before hashing", cns.lineno)
+    # a key may be dropped by *position* only: a filter on the key's spelling inside a function that recurses over
+    # the whole metadata removes user-chosen names (a sweep variable or parameter that happens to be called like the
+    # dropped field) at every depth, and with them their domains / expressions
+    n_filters = 0
+    for qn, h in bodies:
+        is_outer = h is cns
+        params = _params_of(h)
+        rec_calls = [] if is_outer else [c for c in ast.walk(h) if isinstance(c, ast.Call) and isinstance(c.func, ast.Name) and c.func.id == h.name]
+        varying: Set[str] = set()  # parameters whose value changes along the recursion (a depth / path argument)
         for c in rec_calls:
             bound = dict(zip(params, c.args))
             bound.update({k.arg: k.value for k in c.keywords if k.arg})
             for pn, v in bound.items():
                 if not (isinstance(v, ast.Name) and v.id == pn) and pn != params[0]:
                     varying.add(pn)
+        # locals computed from a varying parameter vary too
+        grew = True
+        while grew:
+            grew = False
+            for n in walk_no_nested(h):
+                if isinstance(n, ast.Assign) and len(n.targets) == 1 and isinstance(n.targets[0], ast.Name) and n.targets[0].id not in varying and any(isinstance(x, ast.Name) and x.id in varying for x in ast.walk(n.value)):
+                    varying.add(n.targets[0].id)
+                    grew = True
+        kv = _key_vars(h)
         tests: List[ast.AST] = []
-        for n in ast.walk(h):
+        for n in (walk_no_nested(h) if is_outer else ast.walk(h)):
             if isinstance(n, ast.comprehension):
                 tests.extend(n.ifs)
             elif isinstance(n, (ast.If, ast.IfExp)):
                 tests.append(n.test)
         for t in tests:
-            cmp_consts = [x for x in ast.walk(t) if isinstance(x, ast.Compare) and any(isinstance(y, ast.Constant) and isinstance(y.value, str) for y in ast.walk(x)) or (isinstance(x, ast.Compare) and any(isinstance(y, ast.Name) and y.id in ("_UI_ONLY_KEYS",) for y in ast.walk(x)))]
-            if not cmp_consts:
+            if not _is_key_filter(t, kv):
                 continue
             n_filters += 1
             names = {x.id for x in ast.walk(t) if isinstance(x, ast.Name)}
@@ -173,49 +700,45 @@ def field_coverage(repo: Repo, R: Report) -> None:
             R.check(positional, r, SEM, qn, f"key filter `{_u(t)[:80]}`", "a key is dropped by its spelling at every depth of the metadata (recursive traversal without a position test): a sweep variable or parameter with that name - and its domain / expression - never reaches the node semantic id", t.lineno)
     if n_filters == 0:
         raise AnalysisError("compute_node_semantic_id: no key filter found (UI-only / raw-expression stripping vanished)")
-    hd = [c for c in ast.walk(cns) if isinstance(c, ast.Call) and call_name(c) == "json.dumps" and not any(isinstance(a, FuncNode) and a is not cns for a in ancestors(c))]
-    inner = [n.name for n in ast.walk(cns) if isinstance(n, FuncNode) and n is not cns]
-    ok = False
-    if hd:
-        txt = slice_text(cns, hd[0].args[0], 5)
-        ok = "_strip_ui_only(" in txt and cns.args.args[0].arg in txt and any(f"{nm}(" in txt for nm in inner)
+    roots = set(_params_of(cns)[:1])
+    rets = [x.value for x in walk_no_nested(cns) if isinstance(x, ast.Return) and x.value is not None]
+    hd = [c for rv in rets for c in calls_to(flow(cns, rv), "dumps")]
+    ok = bool(hd) and all(c.args and derives_whole(repo, SEM, cns, c.args[0], roots) for c in hd)
     R.check(ok, r, SEM, "compute_node_semantic_id", "hash(json.dumps(canonicalise(_strip_ui_only(meta))))", "node semantic id does not hash the whole (UI-stripped) metadata", cns.lineno)
-    # pipeline semantic id
-    cps = repo.func(SEM, "compute_pipeline_semantic_id")
-    param = cps.args.args[0].arg
-    lcs = [n for n in ast.walk(cps) if isinstance(n, ast.ListComp) and "nodes" in _u(n.generators[0].iter)]
-    loops = [n for n in ast.walk(cps) if isinstance(n, ast.For) and "nodes" in _u(n.iter) and param in _u(n.iter)]
-    ok = False
-    per_node: Dict[str, ast.AST] = {}
-    if lcs:
-        lc = lcs[0]
-        gen = lc.generators[0]
-        ok = not gen.ifs and param in _u(gen.iter) and not any(call_attr(c) in ("sorted", "set", "reversed") for c in ast.walk(gen.iter) if isinstance(c, ast.Call))
-        per_node = mapping_keys_of(sem, cps, lc.elt)
-    elif loops:
-        lp = loops[0]
-        ok = not any(isinstance(x, (ast.Continue, ast.Break)) for x in ast.walk(lp)) and not any(call_attr(c) in ("sorted", "set", "reversed") for c in ast.walk(lp.iter) if isinstance(c, ast.Call))
-        for c in calls_in(lp):
-            if call_attr(c) == "append" and c.args:
-                per_node = mapping_keys_of(sem, cps, c.args[0])
+    # --- pipeline semantic id
+    cps = NF(repo, SEM, "compute_pipeline_semantic_id")
+    param = _params_of(cps)[0]
+    rets = [x.value for x in walk_no_nested(cps) if isinstance(x, ast.Return) and x.value is not None]
+    hashed_flow = [x for rv in rets for c in calls_to(flow(cps, rv), "dumps") if c.args for x in flow(cps, c.args[0])]
+    hashed_ids = {id(x) for x in hashed_flow}
+    hashed_names = {x.id for x in hashed_flow if isinstance(x, ast.Name)}
+    lists = [(ok_, elt, acc, n) for ok_, elt, acc, n in _node_lists(cps, param) if (id(n) in hashed_ids if acc is None else acc in hashed_names)]
+    ok = bool(lists) and all(t[0] for t in lists)
+    per_node: Dict[str, List[ast.AST]] = {}
+    for i, (_ok, elt, _acc, _n) in enumerate(lists):
+        pi = mapping_items(repo, SEM, cps, elt)
+        per_node = pi if i == 0 else {k: v for k, v in per_node.items() if k in pi}
     R.check(ok, r, SEM, "compute_pipeline_semantic_id", "per-node list over all canonical nodes, in order, unfiltered", "nodes are filtered / reordered before hashing: number or order of nodes can change without changing the semantic id", cps.lineno)
     R.check("node_uuid" in per_node, r, SEM, "compute_pipeline_semantic_id", "per-node structure contains node_uuid", "node uuid (processor, parameters, position) does not reach the pipeline semantic id", cps.lineno)
     R.check("node_semantic_id" in per_node, r, SEM, "compute_pipeline_semantic_id", "per-node structure contains node_semantic_id", "the sweep definition (wrapped processor, expressions, domains, mode, broadcast, collection) never reaches the pipeline semantic id: generated sweep classes share one processor_ref", cps.lineno)
-    nsv = per_node.get("node_semantic_id")
-    ok = nsv is not None and any(isinstance(c, ast.Call) and call_attr(c) == "compute_node_semantic_id" and "preprocessor_metadata" in _u(c.args[0]) for c in ast.walk(nsv))
+    uv = per_node.get("node_uuid") or []
+    R.check(bool(uv) and all(reads_key(flow(cps, v), "node_uuid") for v in uv), r, SEM, "compute_pipeline_semantic_id", "node_uuid = node['node_uuid']", "the rolled-up node uuid is not the canonical node's uuid", cps.lineno)
+    nsv = per_node.get("node_semantic_id") or []
+    ok = bool(nsv) and all(any(c.args and reads_key(flow(cps, c.args[0]), "preprocessor_metadata") for c in calls_to(flow(cps, v), "compute_node_semantic_id")) for v in nsv)
     R.check(ok, r, SEM, "compute_pipeline_semantic_id", "node_semantic_id = compute_node_semantic_id(node['preprocessor_metadata'])", "the rolled-up node semantic id is not computed from the node's preprocessor metadata", cps.lineno)
-    pd = [c for c in ast.walk(cps) if isinstance(c, ast.Call) and call_name(c) == "json.dumps"]
-    ok = bool(pd) and ("'nodes'" in slice_text(cps, pd[0].args[0], 3))
-    R.check(ok, r, SEM, "compute_pipeline_semantic_id", "hash(json.dumps(pipeline_structure))", "the per-node structure is not what gets hashed", cps.lineno)
-    # config id
-    cpc = repo.func(SEM, "compute_pipeline_config_id")
-    hs = [c for c in ast.walk(cpc) if isinstance(c, ast.Call) and call_attr(c) in ("_sha256_json",)]
-    ok = False
-    if hs and hs[0].args:
-        txt = slice_text(cpc, hs[0].args[0], 3)
-        ok = "sorted(" in txt and cpc.args.args[0].arg in txt and "[:" not in txt
+    R.check(bool(lists), r, SEM, "compute_pipeline_semantic_id", "hash(json.dumps(pipeline_structure))", "the per-node structure is not what gets hashed", cps.lineno)
+    # --- config id
+    cpc = NF(repo, SEM, "compute_pipeline_config_id")
+    roots = set(_params_of(cpc)[:1])
+    rets = [x.value for x in walk_no_nested(cpc) if isinstance(x, ast.Return) and x.value is not None]
+    hs = [c for rv in rets for c in calls_to(flow(cpc, rv), "dumps", "_sha256_json")]
+    ok = bool(hs) and all(c.args and derives_whole(repo, SEM, cpc, c.args[0], roots) for c in hs)
     R.check(ok, r, SEM, "compute_pipeline_config_id", "hash of all (uuid, semantic id) pairs", "config id does not cover every pair", cpc.lineno)
 
+
+# ---------------------------------------------------------------------------------------------------------
+# D2
+# ---------------------------------------------------------------------------------------------------------
 
 def _values_under_key(fn: ast.AST, key: str) -> List[ast.AST]:
     """Every expression written under the constant mapping key *key* in *fn*: `m[key] = v`, `{..., key: v}`
@@ -237,50 +760,103 @@ def _values_under_key(fn: ast.AST, key: str) -> List[ast.AST]:
     return out
 
 
+def _is_type_test(e: ast.AST) -> Optional[bool]:
+    """atom for edges_guaranteeing: `isinstance(<x>, type)`."""
+    if isinstance(e, ast.Call) and call_attr(e) == "isinstance" and len(e.args) == 2:
+        t = e.args[1]
+        if isinstance(t, ast.Name) and t.id == "type":
+            return True
+    return None
+
+
+def _under_type_guard(node: ast.AST, fn: ast.AST) -> bool:
+    child = node
+    for a in ancestors(node):
+        if a is fn:
+            break
+        if isinstance(a, ast.If):
+            branch = "T" if any(child is s for s in a.body) else "F" if any(child is s for s in a.orelse) else None
+            if branch is not None and branch in edges_guaranteeing(a.test, _is_type_test):
+                return True
+        child = a
+    return False
+
+
+def _processor_ref_rewrites(cn: ast.AST, e: ast.AST, cfg_param: str, guarded: bool, seen: Set[str]) -> List[ast.AST]:
+    """Expressions through which the hashed processor_ref is something else than the configured value as written
+    (a string stays itself; a class becomes module.qualname)."""
+    if isinstance(e, ast.IfExp):
+        g = edges_guaranteeing(e.test, _is_type_test)
+        return _processor_ref_rewrites(cn, e.body, cfg_param, guarded or "T" in g, seen) + _processor_ref_rewrites(cn, e.orelse, cfg_param, guarded or "F" in g, seen)
+    if isinstance(e, ast.BoolOp):
+        return [x for v in e.values for x in _processor_ref_rewrites(cn, v, cfg_param, guarded, seen)]
+    if isinstance(e, ast.Constant):
+        return []
+    if isinstance(e, ast.Call) and call_attr(e) == "get" and isinstance(e.func, ast.Attribute) and dotted_name(e.func.value) == cfg_param:
+        return []
+    if isinstance(e, ast.Subscript) and dotted_name(e.value) == cfg_param and isinstance(e.slice, ast.Constant):
+        return []
+    if isinstance(e, ast.JoinedStr):
+        fl = list(ast.walk(e))
+        if guarded and reads_attr(fl, "__qualname__") and reads_attr(fl, "__module__"):
+            return []
+        return [e]
+    if isinstance(e, ast.Name):
+        if e.id in seen:
+            return []
+        seen.add(e.id)
+        out: List[ast.AST] = []
+        defs = [n for n in walk_no_nested(cn) if isinstance(n, (ast.Assign, ast.AnnAssign)) and any(isinstance(t, ast.Name) and t.id == e.id for t in (n.targets if isinstance(n, ast.Assign) else [n.target])) and n.value is not None]
+        if not defs:
+            return [e]
+        for d in defs:
+            out.extend(_processor_ref_rewrites(cn, d.value, cfg_param, _under_type_guard(d, cn), seen))
+        return out
+    return [e]
+
+
 def sweep_metadata(repo: Repo, R: Report) -> None:
     r = R.rule("C05-D2-sweep-definition-in-metadata", "generated sweep classes carry no identity in processor_ref; the whole sweep definition (wrapped processor, expression signatures, variable domains, mode, broadcast, collection, dependencies) is in the preprocessor metadata, and the same metadata object enriches the canonical nodes on the inspection and the run-time path; a string processor reference is hashed as written", 12)
-    smod = repo.module(SWEEP)
     create = repo.func(SWEEP, "ParametricSweepFactory.create")
-    pm = next((n for n in ast.walk(create) if isinstance(n, FuncNode) and n.name == "_preprocessor_metadata"), None)
-    if pm is None:
+    # the function that builds the published sweep definition, by role: what the generated classes store under 'preprocessor'
+    hook_vals = [v for v in _values_under_key(create, "preprocessor") if isinstance(v, ast.Call)]
+    builders = {call_attr(v) for v in hook_vals}
+    if len(builders) != 1:
         raise AnalysisError("_preprocessor_metadata not found")
-    keys: Dict[str, ast.AST] = {}
-    for rv in returned_values(pm):
-        keys.update(mapping_keys_of(smod, pm, rv))
+    bname = builders.pop()
+    pm0 = next((n for n in ast.walk(create) if isinstance(n, FuncNode) and n.name == bname), None) or repo.module(SWEEP).defs.get(bname)
+    if not isinstance(pm0, FuncNode):
+        raise AnalysisError("_preprocessor_metadata not found")
+    pm_q = qualname_of(pm0)
+    pm = NF(repo, SWEEP, pm_q)
+    cls_p = _params_of(pm)[0] if _params_of(pm) else None
+    keys = first_items(returned_mapping(repo, SWEEP, pm))
     sources = {
         "element_ref": "_element", "param_expressions": "_expr_src", "variables": "_vars", "mode": "_mode", "broadcast": "_broadcast", "collection": "_collection_output", "dependencies": "_required_external",
     }
+    where = "ParametricSweepFactory.create._preprocessor_metadata"
     for k in sorted(SWEEP_META_KEYS):
         v = keys.get(k)
-        txt = slice_text(pm, v, 3) if v is not None else ""
-        R.check(v is not None and sources[k] in txt, r, SWEEP, "ParametricSweepFactory.create._preprocessor_metadata", f"metadata[{k!r}] <- cls.{sources[k]}", f"the sweep's {k} does not reach the metadata that is hashed: changing it changes no id", pm.lineno)
-    pe_txt = slice_text(pm, keys.get("param_expressions"), 3)
-    R.check("normalize_expression_sig_v1(" in pe_txt, r, SWEEP, "ParametricSweepFactory.create._preprocessor_metadata", "param_expressions[*].sig = normalize_expression_sig_v1(source)", "expression signatures are not computed from the expression source", pm.lineno)
-    vm_txt = slice_text(pm, keys.get("variables"), 3)
-    R.check("variable_domain_signature(" in vm_txt, r, SWEEP, "ParametricSweepFactory.create._preprocessor_metadata", "variables[*] = variable_domain_signature(spec)", "variable domains are not summarised by the domain signature", pm.lineno)
-    n_hooks = sum(1 for n in ast.walk(create) if isinstance(n, ast.Assign) and any(isinstance(t, ast.Subscript) and isinstance(t.slice, ast.Constant) and t.slice.value == "preprocessor" for t in n.targets) and isinstance(n.value, ast.Call) and call_attr(n.value) == "_preprocessor_metadata")
-    R.check(n_hooks == 3, r, SWEEP, "ParametricSweepFactory.create", "meta['preprocessor'] = _preprocessor_metadata(cls) in all three variants", f"only {n_hooks} of the 3 generated sweep variants publish their definition", create.lineno)
+        R.check(v is not None and reads_attr(flow(pm, v), sources[k], cls_p), r, SWEEP, where, f"metadata[{k!r}] <- cls.{sources[k]}", f"the sweep's {k} does not reach the metadata that is hashed: changing it changes no id", pm.lineno)
+    R.check(bool(calls_to(flow(pm, keys.get("param_expressions")), "normalize_expression_sig_v1")), r, SWEEP, where, "param_expressions[*].sig = normalize_expression_sig_v1(source)", "expression signatures are not computed from the expression source", pm.lineno)
+    R.check(bool(calls_to(flow(pm, keys.get("variables")), "variable_domain_signature")), r, SWEEP, where, "variables[*] = variable_domain_signature(spec)", "variable domains are not summarised by the domain signature", pm.lineno)
+    # every generated class publishes its definition (own hook or inherited from another generated class)
+    gen = [c for c in ast.walk(create) if isinstance(c, ast.ClassDef)]
+    publishing = {c.name for c in gen if any(isinstance(v, ast.Call) and call_attr(v) == bname for v in _values_under_key(c, "preprocessor"))}
+    n_hooks = sum(1 for c in gen if c.name in publishing or any(dotted_name(b) in publishing for b in c.bases))
+    R.check(bool(gen) and n_hooks == len(gen), r, SWEEP, "ParametricSweepFactory.create", "meta['preprocessor'] = _preprocessor_metadata(cls) in all three variants", f"only {n_hooks} of the {len(gen)} generated sweep variants publish their definition", create.lineno)
     # string processor refs are hashed as written
-    gmod = repo.module(GRAPH)
-    cn = repo.func(GRAPH, "_canonical_node")
-    keys_cn: Dict[str, ast.AST] = {}
-    for rv in returned_values(cn):
-        keys_cn.update(mapping_keys_of(gmod, cn, rv))
-    pv = keys_cn.get("processor_ref")
-    pname = pv.id if isinstance(pv, ast.Name) else None
-    defs = [n for n in walk_no_nested(cn) if isinstance(n, ast.Assign) and any(isinstance(t, ast.Name) and t.id == pname for t in n.targets)]
-    ok = bool(defs)
-    for d in defs:
-        if isinstance(d.value, ast.Call) and call_attr(d.value) == "get" and dotted_name(d.value.func.value) == cn.args.args[0].arg:
-            continue
-        guards = [a for a in ancestors(d) if isinstance(a, ast.If)]
-        is_type_branch = any("isinstance" in _u(g.test) and "type" in _u(g.test) and "str" not in _u(g.test) for g in guards)
-        if is_type_branch and isinstance(d.value, ast.JoinedStr) and "__qualname__" in _u(d.value):
-            continue
-        ok = False
-        R.violation(r, GRAPH, "_canonical_node", "processor_ref rewritten before hashing", "a string processor reference is rewritten before hashing (e.g. resolved to a generated class whose name drops parts of the shorthand): `template:` / `rename:` / `delete:` nodes that differ in meaning get the same node uuid", d.lineno)
-    if ok:
-        R.ok(r, GRAPH, "_canonical_node", f"processor_ref: string kept as written, class -> module.qualname ({len(defs)} defs)", "", cn.lineno)
+    cn = NF(repo, GRAPH, "_canonical_node")
+    keys_cn = returned_mapping(repo, GRAPH, cn)
+    pvs = keys_cn.get("processor_ref") or []
+    cfg_p = _params_of(cn)[0]
+    bad: List[ast.AST] = []
+    for pv in pvs:
+        bad.extend(_processor_ref_rewrites(cn, pv, cfg_p, False, set()))
+    for b in bad:
+        R.violation(r, GRAPH, "_canonical_node", "processor_ref rewritten before hashing", "a string processor reference is rewritten before hashing (e.g. resolved to a generated class whose name drops parts of the shorthand): `template:` / `rename:` / `delete:` nodes that differ in meaning get the same node uuid", getattr(b, "lineno", cn.lineno))
+    if pvs and not bad:
+        R.ok(r, GRAPH, "_canonical_node", "processor_ref: string kept as written, class -> module.qualname", "", cn.lineno)
     # same metadata object on both paths
     bip = nfunc(repo, BUILDER, "build_inspection_payload", keep=("_build_sweep_payload",))
     insp_p = next((a.arg for a in bip.args.kwonlyargs + bip.args.args if a.arg == "inspection"), "inspection")
@@ -292,79 +868,159 @@ def sweep_metadata(repo: Repo, R: Report) -> None:
     stores = _values_under_key(site, "preprocessor_metadata") if site is not None else []
     ok = bool(stores)
     for v in stores:
-        txt = slice_text(bip, v, 3)
-        ok = ok and f"{insp_p}.nodes" in txt and ".preprocessor_metadata" in txt and "_build_sweep_payload" not in txt
+        fl = flow(bip, v)
+        ok = ok and reads_attr(fl, "nodes", insp_p) and reads_attr(fl, "preprocessor_metadata") and not calls_to(fl, "_build_sweep_payload")
     R.check(ok, r, BUILDER, "build_inspection_payload", "enriched['preprocessor_metadata'] = inspection.nodes[i].preprocessor_metadata", "the inspection path enriches the canonical nodes with something other than the processor's full preprocessor metadata (e.g. a sanitised view without element_ref): its semantic id ignores part of the sweep definition and differs from the run-time one", bip.lineno)
-    bpi = repo.func(BUILDER, "build_pipeline_inspection")
+    bpi = nfunc(repo, BUILDER, "build_pipeline_inspection")
     st2 = [n for n in ast.walk(bpi) if isinstance(n, ast.Assign) and any(isinstance(t, ast.Attribute) and t.attr == "preprocessor_metadata" for t in n.targets)]
-    ok = bool(st2) and all(".get('preprocessor')" in slice_text(bpi, s.value, 3) for s in st2)
+    kw2 = [k.value for c in ast.walk(bpi) if isinstance(c, ast.Call) for k in c.keywords if k.arg == "preprocessor_metadata"]
+    vals2 = [s.value for s in st2] + kw2
+    ok = bool(vals2) and all(reads_key(flow(bpi, v), "preprocessor") for v in vals2)
     R.check(ok, r, BUILDER, "build_pipeline_inspection", "node_inspection.preprocessor_metadata = processor metadata['preprocessor']", "inspection records a different preprocessor metadata than the processor publishes", bpi.lineno)
     ex = repo.func(ORCH, "SemantivaOrchestrator.execute")
     exn = nfunc(repo, ORCH, "SemantivaOrchestrator.execute")
     site3 = (hashed_node_fields(exn) or {}).get("preprocessor_metadata")
     st3 = _values_under_key(site3, "preprocessor_metadata") if site3 is not None else []
     ex = exn if st3 else ex
-    ok = bool(st3) and all(".get('preprocessor')" in slice_text(ex, v, 3) for v in st3)
+    ok = bool(st3) and all(reads_key(flow(ex, v), "preprocessor") for v in st3)
     R.check(ok, r, ORCH, "SemantivaOrchestrator.execute", "canonical node enriched with processor metadata['preprocessor']", "the run-time path enriches canonical nodes with something other than the processor's preprocessor metadata", ex.lineno)
     # the metadata is read fresh from each processor class (not memoised under a key generated classes share)
     gm = [c for c in ast.walk(ex) if isinstance(c, ast.Call) and call_attr(c) == "get_metadata"]
     cached = [n for n in ast.walk(ex) if isinstance(n, ast.Assign) and any(isinstance(t, ast.Subscript) and not isinstance(t.slice, ast.Constant) for t in n.targets) and any(isinstance(c, ast.Call) and call_attr(c) == "get_metadata" for c in ast.walk(n.value))]
+    cached += [c for c in ast.walk(ex) if isinstance(c, ast.Call) and call_attr(c) == "setdefault" and len(c.args) == 2 and not isinstance(c.args[0], ast.Constant) and any(isinstance(x, ast.Call) and call_attr(x) == "get_metadata" for x in ast.walk(c.args[1]))]
     R.check(bool(gm) and not cached, r, ORCH, "SemantivaOrchestrator.execute", "processor metadata read per node, not memoised by name", "processor metadata is memoised under a key (e.g. module.qualname) that generated sweep classes share: a second sweep gets the first one's definition", ex.lineno)
+
+
+# ---------------------------------------------------------------------------------------------------------
+# D3
+# ---------------------------------------------------------------------------------------------------------
+
+def _enumerate_index(fn: ast.AST, name: str) -> Optional[ast.Call]:
+    """The `enumerate(..)` call whose running index the local *name* is (its only binding), else None."""
+    binders = []
+    for n in ast.walk(fn):
+        if isinstance(n, (ast.For, ast.comprehension)):
+            if any(isinstance(x, ast.Name) and x.id == name for x in ast.walk(n.target)):
+                binders.append(n)
+    others = [v for v in name_values(fn, name)]
+    if len(binders) != 1 or len(others) != 1:
+        return None
+    b = binders[0]
+    it = b.iter
+    if isinstance(it, ast.Call) and call_attr(it) == "enumerate" and isinstance(b.target, ast.Tuple) and b.target.elts and isinstance(b.target.elts[0], ast.Name) and b.target.elts[0].id == name:
+        return it
+    return None
+
+
+def _sig_alternatives(fn: ast.AST, g: CFG, e: ast.AST, _seen: Optional[Set[str]] = None) -> List[Tuple[ast.AST, Dict[str, List[ast.AST]]]]:
+    """(alternative mapping expression, {key: values stored into it afterwards}) for a returned expression: split at
+    conditional expressions and at the distinct assignments of a returned local; a later `m[k] = v` belongs to the
+    assignments of `m` that reach it (reaching definitions, not line order)."""
+    _seen = _seen if _seen is not None else set()
+    if isinstance(e, ast.IfExp):
+        return _sig_alternatives(fn, g, e.body, _seen) + _sig_alternatives(fn, g, e.orelse, _seen)
+    if isinstance(e, ast.Name) and e.id not in _seen:
+        defs = [n for n in walk_no_nested(fn) if isinstance(n, (ast.Assign, ast.AnnAssign)) and n.value is not None and any(isinstance(t, ast.Name) and t.id == e.id for t in (n.targets if isinstance(n, ast.Assign) else [n.target]))]
+        if defs:
+            _seen.add(e.id)
+            stores = key_stores(fn, e.id)
+            out: List[Tuple[ast.AST, Dict[str, List[ast.AST]]]] = []
+            for d in defs:
+                extra: Dict[str, List[ast.AST]] = {}
+                for st, k, v in stores:
+                    nodes = g.nodes_for(st)
+                    if nodes and any(rd.ast is d for rd in reaching_defs(g, e.id, nodes[0])):
+                        extra.setdefault(k, []).append(v)
+                for alt, ex in _sig_alternatives(fn, g, d.value, _seen):
+                    merged = {k: list(v) for k, v in ex.items()}
+                    for k, v in extra.items():
+                        merged.setdefault(k, []).extend(v)
+                    out.append((alt, merged))
+            return out
+    return [(e, {})]
 
 
 def positional_and_domains(repo: Repo, R: Report) -> None:
     r = R.rule("C05-D3-position-and-domain", "declaration_index is the enumerate() index of the node in the spec; the range signature covers every RangeSpec field; the sequence signature covers count and a digest of all values", 9)
-    gmod = repo.module(GRAPH)
-    bcs = repo.func(GRAPH, "build_canonical_spec")
-    loops = [n for n in walk_no_nested(bcs) if isinstance(n, ast.For) and isinstance(n.iter, ast.Call) and call_attr(n.iter) == "enumerate"]
-    ok = False
-    if loops:
-        idx = loops[0].target.elts[0].id if isinstance(loops[0].target, ast.Tuple) else None
-        c = next((c for c in calls_in(loops[0]) if call_attr(c) == "_canonical_node"), None)
-        a1 = (c.args[1] if c is not None and len(c.args) >= 2 else kwarg(c, "declaration_index") if c is not None else None)
-        ok = c is not None and dotted_name(a1) == idx and not loops[0].iter.keywords and len(loops[0].iter.args) == 1
+    bcs = NF(repo, GRAPH, "build_canonical_spec")
+    _uu, objs = _hashed_node_objects(bcs)
+    g = CFG(bcs, may_raise=lambda p: set())
+    ok = bool(objs)
+    for o in objs:
+        v = _effective_value(bcs, g, o, "declaration_index", _enclosing_stmt(bcs, o), 0, repo, GRAPH)
+        en = _enumerate_index(bcs, v.id) if isinstance(v, ast.Name) else None
+        # any constant start keeps the indices pairwise distinct
+        start = (en.args[1] if len(en.args) > 1 else kwarg(en, "start")) if en is not None else None
+        ok = ok and en is not None and len(en.args) >= 1 and (start is None or (isinstance(start, ast.Constant) and isinstance(start.value, int)))
+        # ... and the loop that computes the uuid is that enumeration
+        if ok:
+            loop = next((n for n in ast.walk(bcs) if isinstance(n, (ast.For, ast.comprehension)) and n.iter is en), None)
+            inside = isinstance(loop, ast.For) and any(x is o for x in ast.walk(loop)) or (isinstance(loop, ast.comprehension) and any(x is o for x in ast.walk(parent(loop))))
+            ok = ok and bool(inside)
     R.check(ok, r, GRAPH, "build_canonical_spec", "_canonical_node(cfg, <enumerate index>, ...)", "identical nodes at different positions can receive the same uuid", bcs.lineno)
-    cn = repo.func(GRAPH, "_canonical_node")
-    keys_cn: Dict[str, ast.AST] = {}
-    for rv in returned_values(cn):
-        keys_cn.update(mapping_keys_of(gmod, cn, rv))
-    R.check(dotted_name(keys_cn.get("declaration_index")) == "declaration_index", r, GRAPH, "_canonical_node", "'declaration_index': declaration_index", "the positional discriminator is not the parameter", cn.lineno)
+    cn = NF(repo, GRAPH, "_canonical_node")
+    keys_cn = returned_mapping(repo, GRAPH, cn)
+    dv = keys_cn.get("declaration_index") or []
+    cn_params = set(_params_of(cn))
+    ok = bool(dv) and all(isinstance(v, ast.Name) and v.id in cn_params and not assigned_value(cn, v.id) for v in dv)
+    R.check(ok, r, GRAPH, "_canonical_node", "'declaration_index': declaration_index", "the positional discriminator is not the parameter", cn.lineno)
     # RangeSpec fields vs signature
     rs = repo.cls(SWEEP, "RangeSpec")
     fields = [st.target.id for st in rs.body if isinstance(st, ast.AnnAssign) and isinstance(st.target, ast.Name)]
-    vds = repo.func(SEM, "variable_domain_signature")
-    sp = vds.args.args[0].arg
-    range_ret = seq_ret = fc_ret = None
-    for n in ast.walk(vds):
-        if isinstance(n, ast.Dict):
-            kinds = dict(zip([k.value for k in n.keys if isinstance(k, ast.Constant)], n.values))
-            kv = kinds.get("kind")
-            if isinstance(kv, ast.Constant):
-                if kv.value == "range":
-                    range_ret = kinds
-                elif kv.value == "sequence":
-                    seq_ret = kinds
-                elif kv.value == "from_context":
-                    fc_ret = kinds
+    vds = NF(repo, SEM, "variable_domain_signature")
+    sp = _params_of(vds)[0]
+    sigs: Dict[str, Dict[str, ast.AST]] = {}
+    gv = CFG(vds, may_raise=lambda p: set())
+    for ret in walk_no_nested(vds):
+        if isinstance(ret, ast.Return) and ret.value is not None:
+            for alt, extra in _sig_alternatives(vds, gv, ret.value):
+                items = mapping_items(repo, SEM, vds, alt) if not isinstance(alt, ast.Name) else {}
+                for k, v in extra.items():
+                    items.setdefault(k, []).extend(v)
+                for kv in items.get("kind", []):
+                    if isinstance(kv, ast.Constant) and isinstance(kv.value, str):
+                        sigs.setdefault(kv.value, first_items(items))
+    range_ret, seq_ret, fc_ret = sigs.get("range"), sigs.get("sequence"), sigs.get("from_context")
     if range_ret is None or seq_ret is None:
         raise AnalysisError("variable_domain_signature: range / sequence signatures not found")
     for f in fields:
         v = range_ret.get(f)
-        R.check(v is not None and (f"'{f}'" in _u(v) or f"{sp}.{f}" in _u(v)), r, SEM, "variable_domain_signature", f"range signature covers RangeSpec.{f}", f"RangeSpec.{f} is not part of the domain signature: changing it changes no id", vds.lineno)
-    vals_var = next((t.id for n in walk_no_nested(vds) if isinstance(n, ast.Assign) and match(f"list({sp}.values)", n.value) for t in n.targets if isinstance(t, ast.Name)), None)
-    cnt = seq_ret.get("count")
-    R.check(cnt is not None and vals_var is not None and _u(cnt) == f"len({vals_var})", r, SEM, "variable_domain_signature", "sequence signature: count = len(values)", "the number of values is not part of the signature", vds.lineno)
-    sample_txt = slice_text(vds, seq_ret.get("sample"), 1)
-    dig_calls = [c for c in ast.walk(vds) if isinstance(c, ast.Call) and (call_attr(c) == "_sha256_json" or call_name(c) == "hashlib.sha256")]
-    ok = vals_var is not None and bool(dig_calls)
-    for c in dig_calls:
-        a = c.args[0] if c.args else None
-        names = {x.id for x in ast.walk(a) if isinstance(x, ast.Name)} if a is not None else set()
-        ok = ok and vals_var in names and not any(isinstance(s, ast.Subscript) for s in ast.walk(a))
-    digest_var = next((t.id for n in ast.walk(vds) if isinstance(n, ast.Assign) and n.value in dig_calls or (isinstance(n, ast.Assign) and any(c in list(ast.walk(n.value)) for c in dig_calls)) for t in n.targets if isinstance(t, ast.Name)), None)
-    ok = ok and digest_var is not None and digest_var in sample_txt.split(" ; ")[0]
+        R.check(v is not None and reads_attr(flow(vds, v), f, sp), r, SEM, "variable_domain_signature", f"range signature covers RangeSpec.{f}", f"RangeSpec.{f} is not part of the domain signature: changing it changes no id", vds.lineno)
+
+    def all_values(e: Optional[ast.AST]) -> bool:
+        """*e* is computed from the complete `spec.values` (no slice / index / filter on the way)."""
+        fl = flow(vds, e)
+        return reads_attr(fl, "values", sp) and not any(isinstance(x, ast.Subscript) for x in fl) and not any(isinstance(x, ast.comprehension) and x.ifs for x in fl)
+
+    cnts = alternatives(vds, seq_ret["count"]) if seq_ret.get("count") is not None else []
+    ok = bool(cnts) and all(isinstance(c, ast.Call) and call_attr(c) == "len" and len(c.args) == 1 and all_values(c.args[0]) for c in cnts)
+    R.check(ok, r, SEM, "variable_domain_signature", "sequence signature: count = len(values)", "the number of values is not part of the signature", vds.lineno)
+    # digests computed here or in a function of this module that is handed the values
+    n_dig = 0
+    ok = True
+    for k, v in seq_ret.items():
+        if k == "kind":
+            continue
+        fl = flow(vds, v)
+        for c in calls_to(fl, *HASH_FUNCS):
+            n_dig += 1
+            ok = ok and bool(c.args) and all_values(c.args[0])
+        for c in fl:
+            hit = _local_callee(repo, SEM, vds, c) if isinstance(c, ast.Call) and call_attr(c) not in HASH_FUNCS else None
+            if hit is None:
+                continue
+            callee = NF(repo, SEM, hit[0])
+            cps_ = _params_of(callee)
+            for rv in [x.value for x in walk_no_nested(callee) if isinstance(x, ast.Return) and x.value is not None]:
+                for hc in calls_to(flow(callee, rv), *HASH_FUNCS):
+                    n_dig += 1
+                    hfl = flow(callee, hc.args[0]) if hc.args else []
+                    fed = [i for i, pn in enumerate(cps_) if any(isinstance(x, ast.Name) and x.id == pn for x in hfl)]
+                    partial = any(isinstance(x, ast.Subscript) for x in hfl) or any(isinstance(x, ast.comprehension) and x.ifs for x in hfl)
+                    ok = ok and bool(fed) and not partial and all(i < len(c.args) and all_values(c.args[i]) for i in fed)
+    ok = ok and n_dig > 0
     R.check(ok, r, SEM, "variable_domain_signature", "sequence signature: digest over all values", "the sequence digest covers only a part of the values (e.g. head/tail): sequences differing in the middle share a signature", vds.lineno)
-    R.check(fc_ret is not None and "key" in fc_ret, r, SEM, "variable_domain_signature", "from_context signature carries the key", "the context key of a from_context variable is not part of the signature", vds.lineno)
+    R.check(fc_ret is not None and "key" in fc_ret and reads_attr(flow(vds, fc_ret["key"]), "key", sp), r, SEM, "variable_domain_signature", "from_context signature carries the key", "the context key of a from_context variable is not part of the signature", vds.lineno)
 
 
 def run(repo: Repo, R: Report) -> None:
